@@ -1,0 +1,58 @@
+//! Verification hooks (only compiled with `--features verif`).
+//!
+//! Nothing in here changes what the crate does unless a budget is set:
+//! - a step budget for `core::execute::execute` so that looping programs can be
+//!   observed deterministically (set with `set_step_budget` or the environment
+//!   variable `HYEONG_VERIF_STEPS`),
+//! - a counter of speculative steps done by the optimizer.
+use std::sync::atomic::{AtomicU64, Ordering};
+use std::sync::Once;
+
+static STEP_BUDGET: AtomicU64 = AtomicU64::new(u64::MAX);
+static OPT_STEPS: AtomicU64 = AtomicU64::new(0);
+static INIT: Once = Once::new();
+
+fn init() {
+    INIT.call_once(|| {
+        if let Ok(v) = std::env::var("HYEONG_VERIF_STEPS") {
+            if let Ok(n) = v.parse::<u64>() {
+                STEP_BUDGET.store(n, Ordering::SeqCst);
+            }
+        }
+    });
+}
+
+/// Set how many commands `execute` may still run (`u64::MAX`: unlimited)
+pub fn set_step_budget(n: u64) {
+    init();
+    STEP_BUDGET.store(n, Ordering::SeqCst);
+}
+
+/// Consume one step; true when the budget is used up
+pub fn step_budget_exhausted() -> bool {
+    init();
+    let b = STEP_BUDGET.load(Ordering::SeqCst);
+    if b == u64::MAX {
+        false
+    } else if b == 0 {
+        true
+    } else {
+        STEP_BUDGET.store(b - 1, Ordering::SeqCst);
+        false
+    }
+}
+
+/// Count one speculative step of the optimizer
+pub fn opt_step() {
+    OPT_STEPS.fetch_add(1, Ordering::SeqCst);
+}
+
+/// Speculative steps counted so far
+pub fn opt_steps() -> u64 {
+    OPT_STEPS.load(Ordering::SeqCst)
+}
+
+/// Reset the speculative step counter
+pub fn reset_opt_steps() {
+    OPT_STEPS.store(0, Ordering::SeqCst);
+}
